@@ -45,10 +45,12 @@ def result_summary(res, want_skel=False):
     """harness parse result -> [outcome, fp, defs, err, text] record for Api_Trace"""
     import pp
     oc = res.get("outcome")
-    r = {"outcome": oc if oc in ("ok", "err") else str(oc), "fp": "", "defs": [], "err": [], "text": ""}
+    r = {"outcome": oc if oc in ("ok", "err") else str(oc), "fp": "", "defs": [], "err": [], "text": "", "skel": ""}
     if oc == "ok":
         if "tree" in res:
             r["fp"] = fingerprint(res["tree"])
+            if want_skel:
+                r["skel"] = skel_hash(res["tree"], res.get("root_str", ""))
             r["text"] = hashlib.sha1(res.get("root_str", "").encode()).hexdigest()[:12]
         else:
             r["text"] = hashlib.sha1(res.get("text", "").encode()).hexdigest()[:12]
